@@ -70,4 +70,26 @@ theorem entErr_none_locals (ents : List Ent) (e : Ent) (h : entErr ents e = none
         have := List.find?_eq_none.mp hl k hk
         simpa using this
 
+theorem entErr_none_blocks (ents : List Ent) (e : Ent) (h : entErr ents e = none) :
+    ∀ b ∈ e.brefs, blockOK ents b = true := by
+  unfold entErr at h
+  cases hf : e.refs.find? (fun r => r.1 != .attrgroup && (lookup ents r.1.space r.2).isNone) with
+  | some r' => simp [hf] at h
+  | none =>
+    simp only [hf] at h
+    cases hd : dupIn e.ldefs with
+    | some k => simp [hd] at h
+    | none =>
+      simp only [hd] at h
+      cases hl : e.lrefs.find? (fun k => !e.ldefs.contains k) with
+      | some k => rw [hl] at h; cases h
+      | none =>
+        simp only [hl] at h
+        cases hb : e.brefs.find? (fun b => !blockOK ents b) with
+        | some b => rw [hb] at h; cases h
+        | none =>
+          intro b hbm
+          have := List.find?_eq_none.mp hb b hbm
+          simpa using this
+
 end Llir.Resolve
